@@ -2,7 +2,8 @@
 //! regimes, event mix, fault/event placement. Every choice comes from the run's `Prng`.
 
 use crate::events::{Acc, Case, Ev};
-use crate::posit_ref::QT;
+use crate::posit_ref::{posit_units, pow2_posit, round_exact, QT};
+use crate::wide::Wide;
 use crate::prng::Prng;
 use crate::quire::{Failure, Mode, Runner};
 use crate::stats::{Pr, Stats};
@@ -18,8 +19,8 @@ pub struct Swarm {
     pub init_via: u8,
     /// weights of operand regimes: uniform, scale-uniform, extremes, near-one, power-of-two, special, repeat
     pub w_regime: [u32; 7],
-    /// weights of event kinds: acc, cancel-prev, clear, poison, restart, inject, order, load, neg, split2, split3
-    pub w_event: [u32; 11],
+    /// weights of event kinds: acc, cancel-prev, clear, poison, restart, inject, order, load, neg, split2, split3, matdot, boundary
+    pub w_event: [u32; 13],
     /// weights of spellings, index = Sp::ALL
     pub w_spell: [u32; 11],
     /// odds (out of 8) that an accumulate is a subtraction
@@ -54,7 +55,7 @@ pub fn draw_swarm(rng: &mut Prng, mode: Mode, st: &mut Stats) -> Swarm {
         w_regime[rng.below(6) as usize] = 4;
     }
     // event kinds: each non-acc kind is enabled in a random subset of runs
-    let mut w_event = [0u32; 11];
+    let mut w_event = [0u32; 13];
     w_event[0] = 40 + rng.below(40) as u32; // acc
     let on = |rng: &mut Prng, num: u64, den: u64, lo: u32, hi: u32| -> u32 {
         if rng.chance(num, den) {
@@ -69,6 +70,8 @@ pub fn draw_swarm(rng: &mut Prng, mode: Mode, st: &mut Stats) -> Swarm {
     w_event[4] = on(rng, 1, 2, 2, 8); // restart
     w_event[5] = on(rng, 1, 3, 2, 8); // inject
     w_event[6] = on(rng, 1, 2, 3, 10); // order
+    w_event[11] = on(rng, 1, 6, 1, 4); // matrix product client
+    w_event[12] = on(rng, 1, 2, 2, 10); // rounding-boundary seeking accumulate
     if mode == Mode::C12 {
         let any = rng.chance(7, 8);
         if any {
@@ -76,7 +79,7 @@ pub fn draw_swarm(rng: &mut Prng, mode: Mode, st: &mut Stats) -> Swarm {
             w_event[8] = on(rng, 3, 4, 4, 14); // neg
             w_event[9] = on(rng, 2, 3, 2, 8); // split2
             w_event[10] = on(rng, 2, 3, 2, 8); // split3
-            if w_event[7..].iter().all(|&w| w == 0) {
+            if w_event[7..11].iter().all(|&w| w == 0) {
                 w_event[8] = 8;
             }
             st.hit(Pr::cfg_c12);
@@ -197,7 +200,51 @@ pub fn operand(rng: &mut Prng, qt: QT, reg: usize, prev: &[u32], small_bias: u32
     }
 }
 
+/// An image at or next to a rounding boundary: the midpoint of two adjacent posits (an exact
+/// tie), or an exact posit value, plus/minus nothing, one unit, or a single far-away bit.
+fn boundary_image(rng: &mut Prng, qt: QT) -> Option<Img> {
+    let reg = [0usize, 1, 1, 2, 3, 4][rng.below(6) as usize];
+    let p = operand(rng, qt, reg, &[], 0);
+    let mut m = if p >> (qt.n() - 1) != 0 { qt.neg_bits(p) } else { p };
+    if m == 0 || m >= qt.maxpos() {
+        m = qt.maxpos() - 1;
+    }
+    let u0 = posit_units(qt, m)?;
+    let u1 = posit_units(qt, m + 1)?;
+    let gap = u1.sub(&u0);
+    let g = gap.top_bit()?;
+    let base = if rng.chance(3, 4) {
+        if g == 0 {
+            return None;
+        }
+        u0.add(&Wide::one_shl(g - 1)) // the midpoint
+    } else {
+        u0
+    };
+    let delta = match rng.below(6) {
+        0 | 1 => Wide::ZERO,
+        2 => Wide::from_u128(1),
+        3 | 4 => Wide::one_shl(rng.below(g.max(1) as u64) as u32),
+        _ => Wide::from_u128((rng.next() >> rng.below(64)) as u128),
+    };
+    let mut v = if rng.chance(1, 2) { base.add(&delta) } else { base.sub(&delta) };
+    if rng.chance(1, 2) {
+        v = v.neg();
+    }
+    if !v.abs_lt_pow2(qt.w() - 1) {
+        return None;
+    }
+    Some(v.image(qt.w()))
+}
+
 fn structured_image(rng: &mut Prng, qt: QT) -> Img {
+    if rng.chance(1, 3) {
+        if let Some(img) = boundary_image(rng, qt) {
+            if img != qt.nar_image() {
+                return img;
+            }
+        }
+    }
     let mut img = [0u64; 8];
     let limb = |rng: &mut Prng| -> u64 {
         match rng.below(5) {
@@ -467,6 +514,41 @@ fn draw_alt(rng: &mut Prng, qt: QT, seg: &[&Acc]) -> Vec<Acc> {
     out
 }
 
+/// ±2^s as an accumulate event: a single posit if 2^s is one, else a product of two.
+fn pow2_acc(rng: &mut Prng, qt: QT, s: i32, sub: bool) -> Option<Acc> {
+    if let Some(p) = pow2_posit(qt, s) {
+        return Some(match rng.below(3) {
+            0 => Acc { sp: Sp::One, sub, ops: vec![p] },
+            1 => Acc { sp: Sp::Prod, sub, ops: vec![p, qt.one()] },
+            _ => Acc { sp: Sp::Prod, sub, ops: vec![qt.one(), p] },
+        });
+    }
+    let step = 1i32 << qt.es();
+    let s1 = (s / 2).div_euclid(step) * step;
+    let (a, b) = (pow2_posit(qt, s1)?, pow2_posit(qt, s - s1)?);
+    Some(Acc { sp: Sp::Prod, sub, ops: if rng.chance(1, 2) { vec![a, b] } else { vec![b, a] } })
+}
+
+/// An accumulate that steers the running sum onto / next to a rounding boundary of its own
+/// rounded value: ± half an ulp of Round(sum), or a power of two far below it.
+fn boundary_acc(rng: &mut Prng, qt: QT, r: &Wide) -> Option<Acc> {
+    if r.is_zero() {
+        return None;
+    }
+    let rd = round_exact(qt, r);
+    let p = rd.posit;
+    let m = if p >> (qt.n() - 1) != 0 { qt.neg_bits(p) } else { p };
+    if m == 0 || m >= qt.maxpos() {
+        return None;
+    }
+    let gap = posit_units(qt, m + 1)?.sub(&posit_units(qt, m)?);
+    let g = gap.top_bit()? as i32;
+    let j = [0, 0, 0, 1, 1, 2, 3, 8, 30, 63, 64, 65, 100, 128, 200][rng.below(15) as usize];
+    let s = g - 1 - j - qt.f() as i32;
+    let sub = rng.chance(1, 2);
+    pow2_acc(rng, qt, s, sub)
+}
+
 fn gen_t<S: Sut>(rng: &mut Prng, sw: &Swarm, st: &mut Stats) -> Generated {
     let qt = sw.qt;
     let mut case = Case { qt, init_via: sw.init_via, events: Vec::new() };
@@ -540,7 +622,31 @@ fn gen_t<S: Sut>(rng: &mut Prng, sw: &Swarm, st: &mut Stats) -> Generated {
                 }
                 8 => Ev::Neg(rng.below(2) as u8),
                 9 => Ev::Split2,
-                _ => Ev::Split3,
+                10 => Ev::Split3,
+                12 => match (runner.poisoned, boundary_acc(rng, qt, &runner.r)) {
+                    (false, Some(a)) => Ev::Acc(a),
+                    _ => Ev::Acc(draw_acc(rng, sw, &mut prev, false)),
+                },
+                _ => {
+                    let r = rng.range(1, 4) as usize;
+                    let c = rng.range(1, 4) as usize;
+                    let k = rng.geometric(1, 8, 3, 4) as usize;
+                    let mut a = Vec::with_capacity(r * k);
+                    let mut b = Vec::with_capacity(k * c);
+                    for _ in 0..r * k {
+                        let reg = rng.weighted(&sw.w_regime);
+                        a.push(operand(rng, qt, reg, &prev, sw.small_bias));
+                    }
+                    for _ in 0..k * c {
+                        let reg = rng.weighted(&sw.w_regime);
+                        b.push(operand(rng, qt, reg, &prev, sw.small_bias));
+                    }
+                    if rng.chance(1, 12) {
+                        let i = rng.below((r * k) as u64) as usize;
+                        a[i] = qt.nar();
+                    }
+                    Ev::MatDot { r, k, c, a, b }
+                }
             };
             if runner.valid(&ev).is_ok() {
                 chosen = Some((ev, is_cancel));
